@@ -8,6 +8,7 @@
 -/
 import Props.Defs
 import Proofs.SegFactory
+import Proofs.Extra
 namespace Coma.Props
 open Coma Coma.Spec
 
@@ -71,5 +72,17 @@ theorem C13_segment_score (P : Params) (peak : Int) (xs : List APos) (hms : 0 < 
 /-- non-vacuity: the default thresholds on a concrete score list produce two segments -/
 example : scanRanges 1000 1200 [1000, 1000, -250, -250, -250, -250, -250, 1000, 500] =
     [⟨0, 2, 2000⟩, ⟨7, 9, 1500⟩] := by decide
+
+end Coma.Props
+
+namespace Coma.Props
+open Coma Coma.Spec
+
+/-- completeness at the end of the list: a current run that reaches minScore when the positions
+    run out is reported (the final flush) -/
+theorem C13_flush_complete (ms bst : Int) (scores : List Int) :
+    let st := scanFrom ms bst {} 0 scores
+    ∀ r, st.cur = some r → ms ≤ r.score → r ∈ scanRanges ms bst scores :=
+  Coma.Proofs.scan_flush_complete ms bst scores
 
 end Coma.Props
